@@ -120,8 +120,11 @@ theorem GoodE.ofFG {d : List (DomVar (Ext K))} {e : Exp (Ext K)} (h : FG true (i
 
 theorem LogicModel.ofFragModel {m : Model (Ext K)} {d : List (DomVar (Ext K))} (h : FragModel true m d) :
     LogicModel m d :=
-  ⟨GoodE.ofFG h.obj h.objDefined, fun c hc =>
-    ⟨GoodE.ofFG (h.cons c hc).lhs (fun ρ => by obtain ⟨a, _, ha, _⟩ := (h.cons c hc).defined ρ; exact ⟨a, ha⟩),
-     GoodE.ofFG (h.cons c hc).rhs (fun ρ => by obtain ⟨_, b, _, hb⟩ := (h.cons c hc).defined ρ; exact ⟨b, hb⟩)⟩⟩
+  ⟨(GoodE.ofFG h.obj h.objDefined).toS, fun c hc =>
+    have gl := GoodE.ofFG (d := d) (h.cons c hc).lhs
+      (fun ρ => by obtain ⟨a, _, ha, _⟩ := (h.cons c hc).defined ρ; exact ⟨a, ha⟩)
+    have gr := GoodE.ofFG (d := d) (h.cons c hc).rhs
+      (fun ρ => by obtain ⟨_, b, _, hb⟩ := (h.cons c hc).defined ρ; exact ⟨b, hb⟩)
+    ⟨gl.toS, gr.toS⟩⟩
 
 end Rooc.LinP
